@@ -33,6 +33,8 @@ func main() {
 	verif := fs.String("verif", "/verif", "verification directory")
 	rule := fs.String("r", "", "rule id")
 	withCtl := fs.Bool("ctl", false, "load the rule's positive controls")
+	norm := fs.Bool("norm", false, "analyse the normalised view (one-line pure accessors inlined)")
+	dumpNorm := fs.String("dumpnorm", "", "write the normalised files below this directory")
 	file := fs.String("f", "", "replay file")
 	name := fs.String("name", "", "catalogue entry")
 	outDir := fs.String("out", os.Getenv("VERIF_EVIDENCE_DIR"), "evidence output directory (default <verif>/evidence)")
@@ -83,6 +85,22 @@ func main() {
 		if err != nil {
 			fmt.Fprintln(os.Stderr, err)
 			os.Exit(1)
+		}
+		if *norm {
+			m2, n, err := LoadNormalised(m, LoadOpts{RepoDir: *repo, Overlay: overlay})
+			if err != nil {
+				fmt.Fprintln(os.Stderr, "normalised view:", err)
+				os.Exit(1)
+			}
+			fmt.Printf("normalised view: %d accessor calls inlined\n", n)
+			if *dumpNorm != "" {
+				for name, b := range m2.OverlaySrc {
+					out := filepath.Join(*dumpNorm, strings.TrimPrefix(name, *repo))
+					os.MkdirAll(filepath.Dir(out), 0o755)
+					os.WriteFile(out, b, 0o644)
+				}
+			}
+			m = m2
 		}
 		res := &RuleResult{Rule: r.ID}
 		r.Run(m, res)
